@@ -15,18 +15,19 @@ structure Inv (s : St) : Prop where
   u2     : ∀ t, (t, UPc.u2) ∈ s.unl → s.held = false
   armedU0 : s.timer = .armed → ∀ t pc, (t, pc) ∈ s.unl → pc = .u0
   d3     : s.d = .d3 → s.held = false
-  unbooked : (s.g = .g2 ∨ s.g = .gdone) → s.booked = false → s.d = .d0 → s.held = false
+  unbooked : (s.g = .g2 ∨ s.g = .gdone) → s.booked = false → s.d = .d0 → s.held = false ∨ s.cb = .c1
   afterD : s.d ≠ .d0 → s.booked = false
   early  : (s.g = .g0 ∨ s.g = .g1 ∨ s.g = .g2) → s.unl = [] ∧ s.cb = .none ∧ s.timer = .none
   g0     : s.g = .g0 → s.held = false ∧ s.booked = false
   g12    : (s.g = .g1 ∨ s.g = .g2) → s.held = true ∧ s.d = .d0
   g2b    : s.g = .g2 → s.booked = true
   d2h    : s.d = .d2 → s.timer = .armed → s.held = true
-  skipRel : s.d = .dskip → s.held = false
+  skipRel : s.d = .dskip → s.held = false ∨ s.cb = .c1
   doneRel : s.d = .ddone → s.held = false
+  u2f    : ∀ t, (t, UPc.u2f) ∈ s.unl → s.held = false ∨ s.cb = .c1
 
 theorem init_inv (l : Bool) : Inv (init l) := by
-  refine ⟨?_, ?_, ?_, ?_, ?_, ?_, ?_, ?_, ?_, ?_, ?_, ?_, ?_, ?_, ?_, ?_⟩ <;> simp [init]
+  refine ⟨?_, ?_, ?_, ?_, ?_, ?_, ?_, ?_, ?_, ?_, ?_, ?_, ?_, ?_, ?_, ?_, ?_⟩ <;> simp [init]
 
 /-- cleanliness propagates backwards along a step (the ghost flag is only ever raised) -/
 theorem clean_back (s s' : St) (a : Act) (hs : step s a = some s') (hc : Clean s') : Clean s := by
@@ -56,6 +57,7 @@ theorem clean_back (s s' : St) (a : Act) (hs : step s a = some s') (hc : Clean s
       | u0 => simp at hs; rw [← hs] at hc; exact hc
       | u1 => simp only at hs; split at hs <;> simp at hs <;> rw [← hs] at hc <;> exact hc
       | u2 => simp at hs; rw [← hs] at hc; exact hc
+      | u2f => simp at hs; rw [← hs] at hc; exact hc
 
 theorem run_clean_back : ∀ (as : List Act) (s s' : St), run s as = some s' → Clean s' → Clean s := by
   intro as
@@ -82,7 +84,7 @@ set_option maxHeartbeats 1000000 in
 theorem step_inv (s s' : St) (a : Act) (hi : Inv s) (hs : step s a = some s') (hc : Clean s') : Inv s' := by
   have hcs : Clean s := clean_back s s' a hs hc
   unfold Clean at hc hcs
-  obtain ⟨hdone, harm, hfir, hcb, hu2, hau, hd3, hunb, haft, hearly, hg0, hg12, hg2b, hd2h, hskip, hdn⟩ := hi
+  obtain ⟨hdone, harm, hfir, hcb, hu2, hau, hd3, hunb, haft, hearly, hg0, hg12, hg2b, hd2h, hskip, hdn, hu2f⟩ := hi
   cases a with
   | grantStep =>
     simp only [step] at hs
@@ -91,13 +93,13 @@ theorem step_inv (s s' : St) (a : Act) (hi : Inv s) (hs : step s a = some s') (h
       simp only [hg] at hs; simp at hs; subst hs
       have hd : s.d = .d0 := by
         cases hdv : s.d <;> first | rfl | (exfalso; have := hdone (by rw [hdv]; simp); rw [hg] at this; cases this)
-      refine ⟨?_, ?_, ?_, ?_, ?_, ?_, ?_, ?_, ?_, ?_, ?_, ?_, ?_, ?_, ?_, ?_⟩ <;> intros <;> simp_all <;> (try (first | done | grind))
+      refine ⟨?_, ?_, ?_, ?_, ?_, ?_, ?_, ?_, ?_, ?_, ?_, ?_, ?_, ?_, ?_, ?_, ?_⟩ <;> intros <;> simp_all <;> (try (first | done | grind))
     | g1 =>
       simp only [hg] at hs; simp at hs; subst hs
-      refine ⟨?_, ?_, ?_, ?_, ?_, ?_, ?_, ?_, ?_, ?_, ?_, ?_, ?_, ?_, ?_, ?_⟩ <;> intros <;> simp_all <;> (try (first | done | grind))
+      refine ⟨?_, ?_, ?_, ?_, ?_, ?_, ?_, ?_, ?_, ?_, ?_, ?_, ?_, ?_, ?_, ?_, ?_⟩ <;> intros <;> simp_all <;> (try (first | done | grind))
     | g2 =>
       simp only [hg] at hs; simp at hs; subst hs
-      refine ⟨?_, ?_, ?_, ?_, ?_, ?_, ?_, ?_, ?_, ?_, ?_, ?_, ?_, ?_, ?_, ?_⟩ <;> intros <;> simp_all <;> (try (first | done | grind))
+      refine ⟨?_, ?_, ?_, ?_, ?_, ?_, ?_, ?_, ?_, ?_, ?_, ?_, ?_, ?_, ?_, ?_, ?_⟩ <;> intros <;> simp_all <;> (try (first | done | grind))
     | gdone => simp [hg] at hs
   | destroyStart =>
     simp only [step] at hs
@@ -107,17 +109,17 @@ theorem step_inv (s s' : St) (a : Act) (hi : Inv s) (hs : step s a = some s') (h
       simp at hd
       simp at hs; subst hs
       simp at hc
-      refine ⟨?_, ?_, ?_, ?_, ?_, ?_, ?_, ?_, ?_, ?_, ?_, ?_, ?_, ?_, ?_, ?_⟩ <;> intros <;> simp_all <;> (try (first | done | grind))
+      refine ⟨?_, ?_, ?_, ?_, ?_, ?_, ?_, ?_, ?_, ?_, ?_, ?_, ?_, ?_, ?_, ?_, ?_⟩ <;> intros <;> simp_all <;> (try (first | done | grind))
   | destroyStep =>
     simp only [step] at hs
     cases hdv : s.d with
     | d2 =>
       simp only [hdv] at hs
       split at hs <;> simp at hs <;> subst hs <;>
-        (refine ⟨?_, ?_, ?_, ?_, ?_, ?_, ?_, ?_, ?_, ?_, ?_, ?_, ?_, ?_, ?_, ?_⟩ <;> intros <;> simp_all <;> (try (first | done | grind)))
+        (refine ⟨?_, ?_, ?_, ?_, ?_, ?_, ?_, ?_, ?_, ?_, ?_, ?_, ?_, ?_, ?_, ?_, ?_⟩ <;> intros <;> simp_all <;> (try (first | done | grind)))
     | d3 =>
       simp only [hdv] at hs; simp at hs; subst hs
-      refine ⟨?_, ?_, ?_, ?_, ?_, ?_, ?_, ?_, ?_, ?_, ?_, ?_, ?_, ?_, ?_, ?_⟩ <;> intros <;> simp_all <;> (try (first | done | grind))
+      refine ⟨?_, ?_, ?_, ?_, ?_, ?_, ?_, ?_, ?_, ?_, ?_, ?_, ?_, ?_, ?_, ?_, ?_⟩ <;> intros <;> simp_all <;> (try (first | done | grind))
     | d0 => simp [hdv] at hs
     | dskip => simp [hdv] at hs
     | ddone => simp [hdv] at hs
@@ -125,7 +127,7 @@ theorem step_inv (s s' : St) (a : Act) (hi : Inv s) (hs : step s a = some s') (h
     simp only [step] at hs
     split at hs
     · simp at hs; subst hs
-      refine ⟨?_, ?_, ?_, ?_, ?_, ?_, ?_, ?_, ?_, ?_, ?_, ?_, ?_, ?_, ?_, ?_⟩ <;> intros <;> simp_all <;> (try (first | done | grind))
+      refine ⟨?_, ?_, ?_, ?_, ?_, ?_, ?_, ?_, ?_, ?_, ?_, ?_, ?_, ?_, ?_, ?_, ?_⟩ <;> intros <;> simp_all <;> (try (first | done | grind))
     · cases hs
   | cbStep =>
     simp only [step] at hs
@@ -133,13 +135,13 @@ theorem step_inv (s s' : St) (a : Act) (hi : Inv s) (hs : step s a = some s') (h
     | none => simp [hcbv] at hs
     | c1 =>
       simp only [hcbv] at hs; simp at hs; subst hs
-      refine ⟨?_, ?_, ?_, ?_, ?_, ?_, ?_, ?_, ?_, ?_, ?_, ?_, ?_, ?_, ?_, ?_⟩ <;> intros <;> simp_all <;> (try (first | done | grind))
+      refine ⟨?_, ?_, ?_, ?_, ?_, ?_, ?_, ?_, ?_, ?_, ?_, ?_, ?_, ?_, ?_, ?_, ?_⟩ <;> intros <;> simp_all <;> (try (first | done | grind))
     | c2 =>
       simp only [hcbv] at hs; simp at hs; subst hs
-      refine ⟨?_, ?_, ?_, ?_, ?_, ?_, ?_, ?_, ?_, ?_, ?_, ?_, ?_, ?_, ?_, ?_⟩ <;> intros <;> simp_all <;> (try (first | done | grind))
+      refine ⟨?_, ?_, ?_, ?_, ?_, ?_, ?_, ?_, ?_, ?_, ?_, ?_, ?_, ?_, ?_, ?_, ?_⟩ <;> intros <;> simp_all <;> (try (first | done | grind))
     | c3 =>
       simp only [hcbv] at hs; simp at hs; subst hs
-      refine ⟨?_, ?_, ?_, ?_, ?_, ?_, ?_, ?_, ?_, ?_, ?_, ?_, ?_, ?_, ?_, ?_⟩ <;> intros <;> simp_all <;> (try (first | done | grind))
+      refine ⟨?_, ?_, ?_, ?_, ?_, ?_, ?_, ?_, ?_, ?_, ?_, ?_, ?_, ?_, ?_, ?_, ?_⟩ <;> intros <;> simp_all <;> (try (first | done | grind))
   | startUnlock t =>
     simp only [step] at hs
     split at hs
@@ -147,7 +149,7 @@ theorem step_inv (s s' : St) (a : Act) (hi : Inv s) (hs : step s a = some s') (h
     · rename_i hcond
       simp at hcond
       simp at hs; subst hs
-      refine ⟨?_, ?_, ?_, ?_, ?_, ?_, ?_, ?_, ?_, ?_, ?_, ?_, ?_, ?_, ?_, ?_⟩ <;> intros <;> simp_all <;> (try (first | done | grind))
+      refine ⟨?_, ?_, ?_, ?_, ?_, ?_, ?_, ?_, ?_, ?_, ?_, ?_, ?_, ?_, ?_, ?_, ?_⟩ <;> intros <;> simp_all <;> (try (first | done | grind))
   | unlockStep t =>
     simp only [step] at hs
     split at hs
@@ -159,16 +161,35 @@ theorem step_inv (s s' : St) (a : Act) (hi : Inv s) (hs : step s a = some s') (h
         cases hgv : s.g <;> first | rfl | (exfalso; have := hearly; simp_all)
       cases pc with
       | u0 =>
+        have hk : ∀ t', (t', UPc.u2f) ∈ (if s.timer = TimerSt.fired then List.filter (fun x => !decide (x.fst = t)) s.unl ++ [(t, UPc.u2f)]
+            else List.filter (fun x => !decide (x.fst = t)) s.unl ++ [(t, UPc.u1)]) → s.held = false ∨ s.cb = Cb.c1 := by
+          intro t' hm
+          split at hm
+          · rename_i hf
+            rcases List.mem_append.mp hm with h1 | h1
+            · exact hu2f t' (mem_of_filter h1)
+            · have := hfir hf
+              cases hcbv : s.cb with
+              | none => exact absurd hcbv this
+              | c1 => right; rfl
+              | c2 => left; exact hcb (Or.inl hcbv)
+              | c3 => left; exact hcb (Or.inr hcbv)
+          · rcases List.mem_append.mp hm with h1 | h1
+            · exact hu2f t' (mem_of_filter h1)
+            · simp at h1
         simp at hs; subst hs
-        refine ⟨?_, ?_, ?_, ?_, ?_, ?_, ?_, ?_, ?_, ?_, ?_, ?_, ?_, ?_, ?_, ?_⟩ <;> intros <;> simp_all <;> (try (first | done | grind))
+        refine ⟨?_, ?_, ?_, ?_, ?_, ?_, ?_, ?_, ?_, ?_, ?_, ?_, ?_, ?_, ?_, ?_, hk⟩ <;> intros <;> simp_all <;> (try (first | done | grind))
       | u1 =>
         simp only at hs
         have hna : s.timer ≠ .armed := fun htm => by have := hau htm t0 .u1 hmem; cases this
         split at hs <;> simp at hs <;> subst hs <;>
-          (refine ⟨?_, ?_, ?_, ?_, ?_, ?_, ?_, ?_, ?_, ?_, ?_, ?_, ?_, ?_, ?_, ?_⟩ <;> intros <;> simp_all <;> (try (first | done | grind)))
+          (refine ⟨?_, ?_, ?_, ?_, ?_, ?_, ?_, ?_, ?_, ?_, ?_, ?_, ?_, ?_, ?_, ?_, ?_⟩ <;> intros <;> simp_all <;> (try (first | done | grind)))
       | u2 =>
         simp at hs; subst hs
         have hh := hu2 t0 hmem
-        refine ⟨?_, ?_, ?_, ?_, ?_, ?_, ?_, ?_, ?_, ?_, ?_, ?_, ?_, ?_, ?_, ?_⟩ <;> intros <;> simp_all <;> (try (first | done | grind))
+        refine ⟨?_, ?_, ?_, ?_, ?_, ?_, ?_, ?_, ?_, ?_, ?_, ?_, ?_, ?_, ?_, ?_, ?_⟩ <;> intros <;> simp_all <;> (try (first | done | grind))
+      | u2f =>
+        simp at hs; subst hs
+        refine ⟨?_, ?_, ?_, ?_, ?_, ?_, ?_, ?_, ?_, ?_, ?_, ?_, ?_, ?_, ?_, ?_, ?_⟩ <;> intros <;> simp_all <;> (try (first | done | grind))
 
 end Ldlm.SessionEnd
